@@ -263,6 +263,13 @@ def jobs(tier, seed):
         for sp in ('empty', 'b0', 'nb0'):
             out.append({'name': '%s test J=%d %dx%d obs=%s' % (t, J, nc, nm, sp), 'test': t, 'J': J, 'nc': nc, 'nm': nm, 'split': sp, 'tier': tier,
                         'cost': (J * nc * nm) ** 2 * (1 if sp == 'empty' else 5), 'wall': 1200 if tier == 'quick' else 3400})
+    # three cells: an under-sampled cell, a sampled cell holding observed events and a sampled cell without any
+    for sp in ('b0', 'nb0'):
+        out.append({'name': 'spatial test J=2 3x1 obs=%s' % sp, 'test': 'spatial', 'J': 2, 'nc': 3, 'nm': 1, 'split': sp, 'tier': tier, 'cmax': 1,
+                    'cost': 400, 'wall': 1200 if tier == 'quick' else 3400})
+        out.append({'name': 'pl test J=2 3x1 obs=%s' % sp, 'test': 'pl', 'J': 2, 'nc': 3, 'nm': 1, 'split': sp, 'tier': tier, 'cmax': 1,
+                    'cost': 300, 'wall': 1200 if tier == 'quick' else 3400})
+    out.append({'name': 'number test twice (catalogs changed in between)', 'test': 'number2', 'J': 2, 'nc': 1, 'nm': 1, 'split': 'b0', 'tier': tier, 'cost': 5, 'wall': 600})
     for n in ((2, 3) if tier == 'quick' else (2, 3, 4)):
         out.append({'name': 'lemma cumulative_square_diff n=%d' % n, 'test': 'lemma', 'which': 'csd', 'n': n, 'tier': tier, 'cost': 1, 'wall': 600})
     for (n, umax, hmax) in ([(2, 4, 2)] if tier == 'quick' else [(2, 6, 3), (3, 4, 2)]):
@@ -276,7 +283,7 @@ def run_job(job):
     core.MODE['float'] = 'xr'
     core.OPT['lazy_bounds'] = True
     core.OPT['sum_dom'] = True
-    res = _job(job) if job['test'] != 'lemma' else _job_lemma(job)
+    res = _job_lemma(job) if job['test'] == 'lemma' else (_job_number2(job) if job['test'] == 'number2' else _job(job))
     res.update(C.stats_delta(snap))
     return res
 
@@ -329,7 +336,8 @@ def _job(job):
     o = [[z3.Int('o_%d_%d' % (i, k)) for k in range(nm)] for i in range(nc)]
     flat_c = [x for cj in c for row in cj for x in row]
     flat_o = [x for row in o for x in row]
-    cons = [z3.And(x >= 0, x <= CMAX) for x in flat_c + flat_o] + [z3.Sum(flat_c) > 0]
+    cmax_j = job.get('cmax', CMAX)
+    cons = [z3.And(x >= 0, x <= cmax_j) for x in flat_c + flat_o] + [z3.Sum(flat_c) > 0]
     tot_obs_max = 2 if tier == 'quick' else 3
     cons.append(z3.Sum(flat_o) <= tot_obs_max)
     if job['split'] == 'empty':
@@ -674,3 +682,121 @@ def _replay_lemma(cex, want_ok=False):
     want = 2 * (_logd(mg) - _logd(um) - _logd(cm))
     bad = not _close(got, want)
     return bad, 'MLL_score(union %r, catalog %r) = %r, docstring definition %r' % (u, h, got, want)
+
+
+def _job_number2(job):
+    """catalog N-test run twice on one forecast whose catalogs are changed in between (the workflow of repeating the test at a
+    higher magnitude threshold): each result must describe the catalogs as they are when the test runs"""
+    L = C.twin()
+    ce = L.load('csep.core.catalog_evaluations')
+    forecasts = L.load('csep.core.forecasts')
+    J = job['J']
+    a = [z3.Int('a%d' % j) for j in range(J)]
+    b = [z3.Int('b%d' % j) for j in range(J)]
+    n1, n2 = z3.Int('n1'), z3.Int('n2')
+
+    class Cat:
+        def __init__(self, t):
+            self.t = t
+            self.name = 'c'
+            self.region = None
+
+        @property
+        def event_count(self):
+            return SInt(self.t)
+
+        def get_number_of_events(self):
+            return SInt(self.t)
+
+        def __str__(self):
+            return 'cat'
+
+    def run():
+        for x in a + b + [n1, n2]:
+            core.assume(z3.And(x >= 0, x <= 5))
+        cats = [Cat(a[j]) for j in range(J)]
+        fc = forecasts.CatalogForecast(catalogs=cats, n_cat=J, name='cf')
+        fc.region = None
+        r1 = ce.number_test(_MinMag(fc), Cat(n1), verbose=False)
+        for j in range(J):
+            cats[j].t = b[j]          # the user filters the synthetic catalogs in place (e.g. raises the magnitude threshold)
+        r2 = ce.number_test(_MinMag(fc), Cat(n2), verbose=False)
+        return (r1.test_distribution, r1.observed_statistic, r1.quantile), (r2.test_distribution, r2.observed_statistic, r2.quantile)
+    paths, trunc = core.explore(run, max_paths=500)
+    from .C09 import _count_eq, _rt
+
+    def cexf(mod, P):
+        return {'test': 'number2', 'a': [core.int_from_model(mod, x) for x in a], 'b': [core.int_from_model(mod, x) for x in b],
+                'n1': core.int_from_model(mod, n1), 'n2': core.int_from_model(mod, n2)}
+
+    def vio(P):
+        ok = []
+        for (dist, stat, q), sizes, n in ((P.value[0], a, n1), (P.value[1], b, n2)):
+            dl = list(dist) if not isinstance(dist, symnp.SArr) else list(dist.a.reshape(-1))
+            ok.append(z3.BoolVal(len(dl) == J))
+            for d, c in zip(dl, sizes):
+                ok.append(core.R(d).v == z3.ToReal(c))
+            ok.append(core.R(stat).v == z3.ToReal(n))
+            ok.append(_count_eq(_rt(q[0]), [c >= n for c in sizes], J))
+            ok.append(_count_eq(_rt(q[1]), [c <= n for c in sizes], J))
+        return z3.Not(z3.And(ok))
+    obs = C.path_obligations(paths, vio, cexf, _replay_number2, 'both N-test results describe the catalogs at the time of the call', 60)
+    from .C16 import _aggregate
+    out = _aggregate(obs, paths, trunc)
+    okp = [P for P in paths if P.kind == 'ok']
+    if okp:
+        def chk(mod):
+            bad, d = _replay_number2(cexf(mod, okp[0]))
+            return (not bad), d
+        out.append(C.reach_obligation(okp[0], chk))
+    return {'obligations': [o.as_dict() for o in out], 'samples': [{'test': 'number test twice', 'J': J, 'sizes': 'symbolic 0..5', 'paths': len(paths)}]}
+
+
+class _MinMag:
+    """forecast proxy that answers min_magnitude without a region (the N-test only labels its result with it)"""
+    def __init__(self, fc):
+        self._fc = fc
+
+    min_magnitude = 5.0
+
+    def __iter__(self):
+        return iter(self._fc)
+
+    def __getattr__(self, k):
+        return getattr(self._fc, k)
+
+
+def _replay_number2(cex):
+    import io
+    import contextlib
+    C.real_csep()
+    from csep.core import forecasts, catalog_evaluations as ce
+    from csep.core.catalogs import CSEPCatalog
+    reg, _, _ = None, None, None
+    fc0, _, mags = _real_setup([[[0]], [[0]]], [[0]])
+    region = fc0.region
+
+    def cat(n, name='c'):
+        return CSEPCatalog(data=[('e%d' % i, i, 40.25, 10.25, 10.0, 5.5 if i < n else 4.0) for i in range(5)], region=region, name=name)
+    a, b = cex['a'], cex['b']
+    # catalog j holds 5 events of which max(a_j, b_j) ... the second state is reached by an in-place magnitude filter
+    msgs = []
+    with contextlib.redirect_stdout(io.StringIO()):
+        cats = []
+        for j in range(len(a)):
+            data = [('e%d' % i, i, 40.25, 10.25, 10.0, 6.0 if i < min(a[j], b[j]) else 5.0) for i in range(a[j])]
+            cats.append(CSEPCatalog(data=data, region=region, name='c%d' % j))
+        fc = forecasts.CatalogForecast(catalogs=cats, region=region, n_cat=len(a), name='cf')
+        obs1 = CSEPCatalog(data=[('o%d' % i, i, 40.25, 10.25, 10.0, 6.0) for i in range(cex['n1'])], region=region)
+        r1 = ce.number_test(fc, obs1, verbose=False)
+        if list(r1.test_distribution) != a:
+            msgs.append('first N-test distribution %r, catalog sizes %r' % (list(r1.test_distribution), a))
+        shrink = all(y <= x for x, y in zip(a, b))
+        if shrink:
+            for c in cats:
+                c.filter('magnitude >= 5.5')
+            want = [min(x, y) for x, y in zip(a, b)]
+            r2 = ce.number_test(fc, obs1, verbose=False)
+            if list(r2.test_distribution) != want:
+                msgs.append('second N-test (after filtering the catalogs in place) distribution %r, catalog sizes now %r' % (list(r2.test_distribution), want))
+    return bool(msgs), 'sizes %r then %r: %s' % (a, b, '; '.join(msgs) or 'each N-test describes the current catalogs')
